@@ -69,6 +69,17 @@ def gen(rng, tier, k):
                 for sv in ch["svs"]:
                     if rng.random() < 0.5:
                         sv[0] = first - rng.choice([0.5, 100.0, 1000.0, 2500.0])
+    if rng.random() < 0.15:
+        # two tempo points at one time (the later row is the one in force) - both are tempo points of the source
+        for ch in spec["charts"]:
+            if len(ch["bpms"]) >= 2:
+                i = rng.randrange(1, len(ch["bpms"]))
+                ch["bpms"][i][0] = ch["bpms"][i - 1][0]
+                if rng.random() < 0.5:
+                    ch["bpms"].reverse()
+                    for key in ("bpm_x",):
+                        if key in ch:
+                            ch[key].reverse()
     if rng.random() < 0.2:
         # a tempo point repeating the value of the one before it (a bar-line reset) is a tempo point all the same
         for ch in spec["charts"]:
